@@ -33,7 +33,7 @@ impl VectorProblem for Sphere {
 impl LimitedVectorProblem for Sphere {
     fn domain(&self) -> Vec<std::ops::Range<f64>> { vec![-5.0..5.0; 3] }
 }
-fn sphere(x: &[f64]) -> f64 { x.iter().map(|v| (v - 0.5) * (v - 0.5)).sum::<f64>() + 1.0 }
+pub fn sphere(x: &[f64]) -> f64 { x.iter().map(|v| (v - 0.5) * (v - 0.5)).sum::<f64>() + 1.0 }
 impl ObjectiveFunction for Sphere {
     fn objective(&self, s: &Vec<f64>) -> SingleObjective {
         let f = sphere(s);
@@ -51,7 +51,7 @@ impl VectorProblem for PermCost {
     type Element = usize;
     fn dimension(&self) -> usize { 6 }
 }
-fn perm_cost(p: &[usize]) -> f64 { p.iter().enumerate().map(|(i, v)| ((i + 1) * (*v + 1)) as f64).sum() }
+pub fn perm_cost(p: &[usize]) -> f64 { p.iter().enumerate().map(|(i, v)| ((i + 1) * (*v + 1)) as f64).sum() }
 impl ObjectiveFunction for PermCost {
     fn objective(&self, s: &Vec<usize>) -> SingleObjective {
         let f = perm_cost(s);
@@ -69,7 +69,7 @@ impl VectorProblem for OneMax {
     type Element = bool;
     fn dimension(&self) -> usize { 8 }
 }
-fn one_max(b: &[bool]) -> f64 { b.iter().filter(|x| !**x).count() as f64 }
+pub fn one_max(b: &[bool]) -> f64 { b.iter().filter(|x| !**x).count() as f64 }
 impl ObjectiveFunction for OneMax {
     fn objective(&self, s: &Vec<bool>) -> SingleObjective {
         let f = one_max(s);
@@ -115,15 +115,11 @@ where P: crate::problems::SingleObjectiveProblem + ObjectiveFunction + 'static, 
     out
 }
 
-fn cond<P: Problem>(n: u32) -> Box<dyn Condition<P>> { LessThanN::iterations(n) }
+pub fn cond<P: Problem>(n: u32) -> Box<dyn Condition<P>> { LessThanN::iterations(n) }
 
-/// runs every shipped template (3 seeds) and hands each result to `check`
-pub fn for_all_runs(check: &mut dyn FnMut(&RunResult)) -> u64 {
-    let mut runs = 0u64;
-    for seed in 0..3u64 {
-        let sp = Sphere { returned: Mutex::new(Vec::new()) };
-        let n = 15;
-        let real: Vec<(&'static str, Configuration<Sphere>)> = vec![
+
+pub fn real_templates(n: u32) -> Vec<(&'static str, Configuration<Sphere>)> {
+    vec![
             ("real_ga", ga::real_ga(ga::RealProblemParameters { population_size: 8, tournament_size: 3, pm: 0.5, deviation: 0.2, pc: 0.8 }, cond(n)).unwrap()),
             ("real_pso", pso::real_pso(pso::RealProblemParameters { num_particles: 6, start_weight: 0.9, end_weight: 0.4, c_one: 1.0, c_two: 1.5, v_max: 1.0 }, cond(n)).unwrap()),
             ("real_sa", sa::real_sa(sa::RealProblemParameters { t_0: 5.0, alpha: 0.9, deviation: 0.3 }, cond(n)).unwrap()),
@@ -137,19 +133,34 @@ pub fn for_all_runs(check: &mut dyn FnMut(&RunResult)) -> u64 {
             ("real_rw", rw::real_rw(rw::RealProblemParameters { deviation: 0.3 }, cond(n)).unwrap()),
             ("real_rs", rs::real_rs(cond(n)).unwrap()),
             ("real_cro", cro::real_cro(cro::RealProblemParameters { initial_population_size: 6, mole_coll: 0.5, kinetic_energy_lr: 0.5, alpha: 5, beta: 0.2, initial_kinetic_energy: 50.0, buffer: 0.0, on_wall_deviation: 0.2, decomposition_deviation: 0.3 }, cond(n)).unwrap()),
-        ];
-        for (name, c) in real { let r = run_one(name, seed, &sp, &sp.returned, c, &|s: &Vec<f64>| sphere(s)); check(&r); runs += 1; }
-        let pp = PermCost { returned: Mutex::new(Vec::new()) };
-        let perm: Vec<(&'static str, Configuration<PermCost>)> = vec![
+    ]
+}
+pub fn perm_templates(n: u32) -> Vec<(&'static str, Configuration<PermCost>)> {
+    vec![
             ("permutation_sa", sa::permutation_sa(sa::PermutationProblemParameters { t_0: 5.0, alpha: 0.9, num_swap: 2 }, cond(n)).unwrap()),
             ("permutation_ls", ls::permutation_ls(ls::PermutationProblemParameters { num_neighbors: 4, num_swap: 2 }, cond(n)).unwrap()),
             ("permutation_ils", ils::permutation_ils(ils::PermutationProblemParameters { ls_params: ls::PermutationProblemParameters { num_neighbors: 3, num_swap: 2 }, ls_condition: cond(3) }, cond(5)).unwrap()),
             ("permutation_random_walk", rw::permutation_random_walk(rw::PermutationProblemParameters { num_swap: 2 }, cond(n)).unwrap()),
             ("permutation_rs", rs::permutation_rs(cond(n)).unwrap()),
-        ];
+    ]
+}
+pub fn binary_template(n: u32) -> Configuration<OneMax> {
+    ga::binary_ga(ga::BinaryProblemParameters { population_size: 8, tournament_size: 3, rm: 0.2, pc: 0.8, pm: 0.5 }, cond(n)).unwrap()
+}
+
+/// runs every shipped template (3 seeds) and hands each result to `check`
+pub fn for_all_runs(check: &mut dyn FnMut(&RunResult)) -> u64 {
+    let mut runs = 0u64;
+    for seed in 0..3u64 {
+        let sp = Sphere { returned: Mutex::new(Vec::new()) };
+        let n = 15;
+        let real = real_templates(n);
+        for (name, c) in real { let r = run_one(name, seed, &sp, &sp.returned, c, &|s: &Vec<f64>| sphere(s)); check(&r); runs += 1; }
+        let pp = PermCost { returned: Mutex::new(Vec::new()) };
+        let perm = perm_templates(n);
         for (name, c) in perm { let r = run_one(name, seed, &pp, &pp.returned, c, &|s: &Vec<usize>| perm_cost(s)); check(&r); runs += 1; }
         let bp = OneMax { returned: Mutex::new(Vec::new()) };
-        let c = ga::binary_ga(ga::BinaryProblemParameters { population_size: 8, tournament_size: 3, rm: 0.2, pc: 0.8, pm: 0.5 }, cond(n)).unwrap();
+        let c = binary_template(n);
         let r = run_one("binary_ga", seed, &bp, &bp.returned, c, &|s: &Vec<bool>| one_max(s)); check(&r); runs += 1;
     }
     runs
